@@ -25,8 +25,10 @@ import (
 
 const sec = int64(time.Second)
 const host = "app.example.test"
+const decoyHost = "decoy.example.test"
 
 type vsession struct {
+	IssuedAt                              *int64 // virtual ns at which this cookie was sealed (histories)
 	Slug, Email, User, Access, RefreshTok string
 	RefreshDL, LifetimeDL, ValidDL        int64 // virtual ns
 	Grace                                 *int64
@@ -196,7 +198,8 @@ func newWorld(auth *c.FakeAuth, dir string, p policy, L, V, G int64) *world {
 	if len(p.Skip) > 0 {
 		opts = append(opts, "      skip_auth_regex: "+yamlList(p.Skip))
 	}
-	yaml := "- service: svc\n  default:\n    from: " + host + "\n    to: " + b.HostPort() + "\n    options:\n" + strings.Join(opts, "\n") + "\n"
+	yaml := "- service: decoy\n  default:\n    from: " + decoyHost + "\n    to: " + b.HostPort() + "\n    options:\n      allowed_email_domains: [\"*\"]\n      allowed_groups: [\"*\"]\n      skip_auth_regex: [\"^/x/\"]\n" +
+		"- service: svc\n  default:\n    from: " + host + "\n    to: " + b.HostPort() + "\n    options:\n" + strings.Join(opts, "\n") + "\n"
 	w, err := c.BuildProxy(c.ProxyOpts{YAML: yaml, Lifetime: time.Duration(L) * time.Second, Valid: time.Duration(V) * time.Second,
 		Grace: time.Duration(G) * time.Second, Dir: dir}, auth)
 	c.Must(err)
@@ -219,6 +222,7 @@ func (w *world) coqPol() string {
 type reqSpec struct {
 	Method, Path string
 	XHR          bool
+	Headers      map[string]string
 	CookieKind   string // none | junk | otherkey | truncated | sealed
 	Sess         *vsession
 }
@@ -253,6 +257,9 @@ func (w *world) step(auth *c.FakeAuth, vnow int64, rq reqSpec, a ans) stepObs {
 	req := c.NewReq(rq.Method, host, rq.Path)
 	if rq.XHR {
 		req.Header.Set("X-Requested-With", "XMLHttpRequest")
+	}
+	for k, v := range rq.Headers {
+		req.Header.Set(k, v)
 	}
 	real := time.Now()
 	ck := "NoCookie"
@@ -291,6 +298,8 @@ func (w *world) step(auth *c.FakeAuth, vnow int64, rq reqSpec, a ans) stepObs {
 			c.Must(fmt.Errorf("proxy set a session cookie that does not open"))
 		}
 		saved = fromReal(s, vnow, real)
+		iat := vnow
+		saved.IssuedAt = &iat
 		effCoq = "(CSaved " + saved.coq() + ")"
 	}
 	skipHit := false
@@ -313,8 +322,13 @@ func (w *world) step(auth *c.FakeAuth, vnow int64, rq reqSpec, a ans) stepObs {
 	coq := fmt.Sprintf("{| o_now := %s; o_req := {| r_host := %s; r_is_options := %s; r_skip_hit := %s; r_xhr := %s; r_endpoint := %s; r_cookie := %s |}; o_ans := %s; o_served := %s; o_status := %s; o_signin := %s; o_cookie := %s; o_calls := %s |}",
 		c.Z(secs(vnow)), c.Str(host), c.Bool(rq.Method == "OPTIONS"), c.Bool(skipHit), c.Bool(rq.XHR), ep, ck, a.coq(),
 		c.Bool(served), c.Z(int64(rec.Code)), c.Bool(signin), effCoq, c.List(callsCoq))
+	issuedAt := "None"
+	if rq.Sess != nil && rq.Sess.IssuedAt != nil && rq.CookieKind == "sealed" {
+		issuedAt = "(Some " + c.Z(secs(*rq.Sess.IssuedAt)) + ")"
+	}
+	coq = strings.TrimSuffix(coq, " |}") + "; o_issued_at := " + issuedAt + " |}"
 	j := map[string]interface{}{"now": secs(vnow), "method": rq.Method, "path": rq.Path, "xhr": rq.XHR, "cookie": rq.CookieKind,
-		"answers": a, "served": served, "status": rec.Code, "signin": signin, "cookie_effect": eff, "calls": calls}
+		"headers": rq.Headers, "answers": a, "served": served, "status": rec.Code, "signin": signin, "cookie_effect": eff, "calls": calls}
 	if rq.Sess != nil {
 		j["session"] = rq.Sess.json()
 	}
@@ -384,7 +398,7 @@ func genSession(r *c.Rng, w *world, vnow int64) *vsession {
 		s.Slug = "okta"
 	}
 	if r.Chance(0.12) {
-		s.Upstream = []string{"other.example.test", "APP.EXAMPLE.TEST", "app.example.test:80", ""}[r.Intn(4)]
+		s.Upstream = []string{"other.example.test", "APP.EXAMPLE.TEST", "app.example.test:80", "", decoyHost}[r.Intn(5)]
 	}
 	if r.Chance(0.15) {
 		s.RefreshTok = ""
@@ -411,6 +425,10 @@ func single(r *c.Rng, auth *c.FakeAuth, worlds []*world) c.Case {
 		rq.Path = "/x/open/thing?y=/open/"
 	case 4:
 		rq.Method = "OPTIONS"
+	case 5:
+		rq.Path = "/x/page?next=/open/thing" // only the QUERY matches a skip pattern
+	case 6:
+		rq.Path = "/x/page?z=thing"
 	}
 	rq.XHR = r.Chance(0.15)
 	switch r.Intn(12) {
@@ -426,6 +444,15 @@ func single(r *c.Rng, auth *c.FakeAuth, worlds []*world) c.Case {
 		rq.CookieKind = "sealed"
 	}
 	rq.Sess = genSession(r, w, vnow)
+	if r.Chance(0.3) { // headers a client controls and that must play no role in mediation
+		rq.Headers = map[string]string{}
+		hv := []string{rq.Sess.Upstream, "other.example.test", decoyHost, host}
+		for _, h := range []string{"X-Forwarded-Host", "X-Forwarded-For", "X-Real-Ip", "Forwarded", "X-Original-Host", "X-Forwarded-Email", "X-Forwarded-User", "X-Forwarded-Groups", "Authorization"} {
+			if r.Chance(0.35) {
+				rq.Headers[h] = hv[r.Intn(len(hv))]
+			}
+		}
+	}
 	a := genAns(r, 0.45)
 	o := w.step(auth, vnow, rq, a)
 	return w.hcase("None", []stepObs{o}, []string{rq.Sess.Email})
@@ -445,32 +472,43 @@ func history(r *c.Rng, auth *c.FakeAuth, worlds []*world, linear bool, maxLen in
 	if r.Chance(0.1) {
 		rt = ""
 	}
-	// login through the real callback
-	auth.Set(c.AuthScript{
-		Redeem:  c.Answer{Status: 200, Body: c.JSONBody(map[string]interface{}{"access_token": "at", "refresh_token": rt, "expires_in": exp, "email": email})},
-		Profile: c.Answer{Status: 200, Body: c.JSONBody(map[string]interface{}{"email": email, "groups": []string{"g1"}})}})
-	rec := w.W.Do(c.NewReq("GET", host, "/"))
-	loc, _ := url.Parse(rec.Header().Get("Location"))
-	state := loc.Query().Get("state")
-	var csrf *http.Cookie
-	for _, ck := range rec.Result().Cookies() {
-		if ck.Name == w.W.CookieName+"_csrf" {
-			csrf = ck
+	// login through the real callback (retried: the provider's HTTP client has a 2 s dial timeout,
+	// which a heavily loaded machine can exceed)
+	var real time.Time
+	var val string
+	for attempt := 0; ; attempt++ {
+		auth.Set(c.AuthScript{
+			Redeem:  c.Answer{Status: 200, Body: c.JSONBody(map[string]interface{}{"access_token": "at", "refresh_token": rt, "expires_in": exp, "email": email})},
+			Profile: c.Answer{Status: 200, Body: c.JSONBody(map[string]interface{}{"email": email, "groups": []string{"g1"}})}})
+		rec := w.W.Do(c.NewReq("GET", host, "/"))
+		loc, _ := url.Parse(rec.Header().Get("Location"))
+		state := loc.Query().Get("state")
+		var csrf *http.Cookie
+		for _, ck := range rec.Result().Cookies() {
+			if ck.Name == w.W.CookieName+"_csrf" {
+				csrf = ck
+			}
+		}
+		if state == "" || csrf == nil {
+			c.Must(fmt.Errorf("could not start flow"))
+		}
+		cb := c.NewReq("GET", host, "/oauth2/callback?code=abc&state="+url.QueryEscape(state))
+		cb.AddCookie(&http.Cookie{Name: csrf.Name, Value: csrf.Value})
+		real = time.Now()
+		rec = w.W.Do(cb)
+		auth.TakeCalls()
+		var eff string
+		eff, val = c.CookieEffect(rec, w.W.CookieName)
+		if eff == "set" {
+			break
+		}
+		if attempt >= 3 {
+			c.Must(fmt.Errorf("login failed: %d", rec.Code))
 		}
 	}
-	if state == "" || csrf == nil {
-		c.Must(fmt.Errorf("could not start flow"))
-	}
-	cb := c.NewReq("GET", host, "/oauth2/callback?code=abc&state="+url.QueryEscape(state))
-	cb.AddCookie(&http.Cookie{Name: csrf.Name, Value: csrf.Value})
-	real := time.Now()
-	rec = w.W.Do(cb)
-	auth.TakeCalls()
-	eff, val := c.CookieEffect(rec, w.W.CookieName)
-	if eff != "set" {
-		c.Must(fmt.Errorf("login failed: %d %s", rec.Code, rec.Body.String()))
-	}
 	issued := []*vsession{fromReal(w.W.Open(val), vnow, real)}
+	iat0 := vnow
+	issued[0].IssuedAt = &iat0
 	var cur *vsession = issued[0]
 	t0 := vnow
 	n := 2 + r.Intn(maxLen-1)
